@@ -274,6 +274,25 @@ class Mutator(object):
         return h, method, 'header-' + kind
 
 
+UUID_RX = __import__('re').compile(
+    r'[0-9a-fA-F]{8}-[0-9a-fA-F]{4}-[0-9a-fA-F]{4}-[0-9a-fA-F]{4}-'
+    r'[0-9a-fA-F]{12}')
+
+
+def respell_uuid(rng, text):
+    """another spelling of one uuid inside text (most are VALID input for
+    uuid-format fields: upper case, no dashes, braces, urn prefix)"""
+    ms = list(UUID_RX.finditer(text))
+    if not ms:
+        return None
+    m = rng.choice(ms)
+    u = m.group(0)
+    v = rng.choice([u.upper(), u.replace('-', ''), '{%s}' % u,
+                    'urn:uuid:' + u, u.replace('-', '').upper(),
+                    u[:-1] + u[-1].upper(), ' ' + u, u + ' '])
+    return text[:m.start()] + v + text[m.end():]
+
+
 def split_req(req):
     """pv.client.Req -> (method, path, query pairs (encoded), headers, body
     document or None)."""
